@@ -7,6 +7,7 @@ import sys
 
 sys.path.insert(0, os.path.join(os.path.dirname(os.path.abspath(__file__)), "..", "gen"))
 import dnsgen as G
+import textgen as T
 
 
 def hx(b):
@@ -753,4 +754,208 @@ class C05(Prop):
         return [case.meta["family"]]
 
 
-REGISTRY = {"C01": C01, "C18": C18, "C12": C12, "C03": C03, "C04": C04, "C05": C05}
+BASE_RESPONSE = struct.pack(">HHHHHH", 7, 0x8180, 1, 1, 0, 0) + G.wire_name([b"example", b"com"]) + struct.pack(">HH", 1, 1) + \
+    b"\xc0\x0c" + struct.pack(">HHIH", 1, 1, 60, 4) + b"\x0a\x00\x00\x01"
+
+
+def record_wellformed(rrw):
+    """Is this the wire form of one well-formed record (checked by parsing it inside a packet)?"""
+    pkt = struct.pack(">HHHHHH", 7, 0x8180, 1, 1, 0, 0) + G.wire_name([b"q"]) + struct.pack(">HH", 1, 1) + rrw
+    return decode_or_none(pkt) is not None
+
+
+class C13(Prop):
+    id = "C13"
+    rule = ("Y: RR::from_string on (a) texts rendered from abstract records of the nine supported types with boundary values (TTL 0 / 2^32-1, "
+            "62-byte labels, 253-byte names, 255/256-byte TXT, preference 0/65535, every '::' form), arbitrary horizontal whitespace and "
+            "keyword case: result must equal the RFC 1035 wire form computed by an independent encoder; (b) systematically damaged variants "
+            "(missing/surplus field, out-of-range number, bad address, unbalanced quote, odd/non-hex digest): must be an error; (c) arbitrary "
+            "printable and UTF-8 strings: never a panic, and any Ok result is a well-formed record. I: insertion of (a) into the answer / "
+            "authority / additional section of a valid response, then a fresh parse of the object's bytes. Non-trivial: (a) and (b); distinct = "
+            "distinct text.")
+    strength = ("proved: synthesis is total - for every byte string RR::from_string returns Ok or Err in the model, never Panic "
+                "(C13_synth_total; the grammar model has no partial operation left after the hex-digest repair); every name the builders emit "
+                "is a plain name of at most 253 bytes with labels of at most 62 bytes (C14's theorems). PARTIAL: completeness (every grammar "
+                "text yields the RFC 1035 wire form) and rejection of the damaged classes are decided by the correspondence and the "
+                "independent encoder oracle, not yet by a theorem.")
+    assumptions = ["input strings are valid UTF-8 (Rust &str); the model works on their bytes",
+                   "chomp1-0.3.4 combinators, hex::decode and Ipv6Addr::from_str are reproduced by hand in Model/Text.v (trusted, exercised by the correspondence)"]
+
+    def gen(self, rng, tier):
+        n = 700 if tier == "quick" else 20000
+        cases = []
+        k = 0
+        for i in range(n):
+            r = T.rand_record(rng, boundary=(i % 3 == 0))
+            text = T.render(rng, r)
+            ok = T.grammar_ok(r)
+            cases.append(Case("y%d" % k, "Y," + hx(text), {"family": "valid/" + r.t, "expect": T.wire(r).hex() if ok else None, "text": text.decode("latin1")}))
+            k += 1
+            if i % 2 == 0:
+                for d in T.damage(rng, r):
+                    cases.append(Case("y%d" % k, "Y," + hx(d), {"family": "damaged/" + r.t, "reject": True, "text": d.decode("latin1")}))
+                    k += 1
+            if i % 4 == 0 and ok:
+                sec = rng.choice(["an", "ns", "ar"])
+                cases.append(Case("y%d" % k, "\t".join(["P," + hx(BASE_RESPONSE), "I,%s,%s" % (sec, hx(text)), "fp", "v", "b"]),
+                                  {"family": "insert/" + r.t, "rr": T.wire(r).hex(), "sec": sec}))
+                k += 1
+        m = 300 if tier == "quick" else 8000
+        alphabet = b" \t.0123456789aAzZ_-\"\\():INinTXAMSODCPRtxamsodcpr"
+        for i in range(m):
+            ln = rng.choice([0, 1, 3, 8, 20, 40, 80])
+            if rng.random() < 0.8:
+                t = bytes(rng.choice(alphabet) for _ in range(ln))
+            else:
+                t = "".join(chr(rng.choice([rng.randint(1, 126), rng.randint(128, 0x7FF), rng.randint(0x800, 0xFFFF)])) for _ in range(ln)).encode("utf-8", "ignore")
+            cases.append(Case("y%d" % k, "Y," + hx(t), {"family": "arbitrary", "text": t.decode("latin1")}))
+            k += 1
+        return cases
+
+    def oracle(self, case, io):
+        w = no_crash(io)
+        if w:
+            return w
+        if case.line.startswith("Y,"):
+            o = io[0]
+            if o == "NOTUTF8":
+                return None
+            exp = case.meta.get("expect")
+            if exp is not None and o != "OK:" + exp:
+                return "text in the supported grammar: got %s, RFC 1035 wire form is %s (text %r)" % (o[:160], exp[:160], case.meta["text"][:120])
+            if case.meta.get("reject") and o.startswith("OK"):
+                return "text outside the grammar was accepted (text %r)" % case.meta["text"][:160]
+            if o.startswith("OK:") and not record_wellformed(bytes.fromhex(o[3:])):
+                return "synthesis returned a record that is not well-formed (text %r)" % case.meta["text"][:160]
+            return None
+        # insertion
+        if io[1] != "OK":
+            return "inserting a grammar text into a valid packet failed: " + io[1]
+        if not io[2].startswith("fp[q="):
+            return "after inserting a synthesised record the packet is no longer accepted by the parser: " + io[2]
+        return None
+
+    def classify(self, case, why):
+        return "synth"
+
+    def nontrivial(self, case, io):
+        return hash(case.line) if not case.meta["family"].startswith("arbitrary") else None
+
+    def tags(self, case, io):
+        return [io[0][:3]] if io else ["noout"]
+
+    def shrink(self, case, still_fails):
+        return shrink_bytes(case, still_fails) if case.line.startswith("Y,") else case
+
+
+class C14(Prop):
+    id = "C14"
+    rule = ("Z: raw_name_from_str on ALL strings of length <= 5 over {a,B,-,_,.,1} (9331, exhaustive in both tiers), labels of 61..64 bytes, "
+            "totals of 250..256 wire bytes, random LDH names and arbitrary bytes, each with and without a default zone; then, for accepted "
+            "names, set_raw_name on a record followed by name() (read back). Expected labels are computed from the input text independently. "
+            "Non-trivial: non-empty name; distinct = distinct (name, zone).")
+    strength = ("proved (unbounded, for every byte string and zone): an accepted name has labels of at most 62 bytes and at most 253 wire bytes, "
+                "its encoding is the concatenation of the dot-separated labels of the text, each prefixed by its length, followed by the zone or "
+                "a root byte (C14_from_str_spec); empty interior labels, labels over 62 bytes and texts over 253 bytes are rejected "
+                "(C14_rejects). Read-back through set_raw_name/name() is decided by the correspondence.")
+    assumptions = ["bytes < 256", "the default zone passed in is itself a well-formed wire name (documented precondition)"]
+
+    ZONE = [b"example", b"org"]
+
+    def names(self, rng, tier):
+        out = []
+        alpha = b"aB-_.1"
+        import itertools
+        for ln in range(0, 6):
+            for t in itertools.product(alpha, repeat=ln):
+                out.append(bytes(t))
+        for l in (61, 62, 63, 64):
+            out += [b"a" * l, b"a" * l + b".com", b"x." + b"b" * l, b"a" * l + b"."]
+        for total in range(248, 258):
+            labels = G.name_of_wire_len(total)
+            labels = [l[:62] for l in labels]
+            # 62-byte labels so that only the total matters
+            n = []
+            rest = total - 1
+            while rest > 0:
+                l = min(62, rest - 1)
+                if l <= 0:
+                    break
+                n.append(b"y" * l)
+                rest -= l + 1
+            out += [b".".join(n), b".".join(n) + b"."]
+        for _ in range(300 if tier == "quick" else 10000):
+            lab = T.rand_hostname(rng, big=rng.random() < 0.3)
+            out.append(T.dotted(lab, rng.random() < 0.5))
+        for _ in range(200 if tier == "quick" else 5000):
+            out.append(bytes(rng.choice([rng.randint(0, 255), 46, 97, 128, 129]) for _ in range(rng.choice([1, 2, 5, 20, 70, 254, 300]))))
+        return out
+
+    def gen(self, rng, tier):
+        cases = []
+        zone = G.wire_name(self.ZONE)
+        for i, nm in enumerate(self.names(rng, tier)):
+            for z in (None, zone):
+                if z is not None and i % 3 and len(nm) > 3:
+                    continue
+                cases.append(Case("z%d%s" % (i, "z" if z else ""), "Z,%s,%s" % (hx(nm), hx(z) if z else "-"),
+                                  {"family": "from_str", "name": nm.hex(), "zone": bool(z)}))
+        # read back through a record
+        k = 0
+        for nm in self.names(random.Random(rng.random()), "quick")[9331:9331 + (400 if tier == "quick" else 4000)]:
+            if not T.ldh_name_ok(nm):
+                continue
+            labels = T.expected_labels(nm, None)
+            if G.wire_len(labels) > 253:
+                continue
+            raw = G.wire_name(labels)
+            cases.append(Case("rb%d" % k, "\t".join(["P," + hx(BASE_RESPONSE), "W,an,0,*M%s.n.r" % hx(raw), "fp"]),
+                              {"family": "readback", "name": nm.hex(), "raw": raw.hex()}))
+            k += 1
+        return cases
+
+    def oracle(self, case, io):
+        w = no_crash(io)
+        if w:
+            return w
+        nm = bytes.fromhex(case.meta["name"]) if case.meta["name"] else b""
+        if case.meta["family"] == "from_str":
+            o = io[0]
+            zl = self.ZONE if case.meta["zone"] else None
+            if o.startswith("OK:"):
+                wire = bytes.fromhex(o[3:]) if o[3:] != "-" else b""
+                try:
+                    labels, end = G.ref_plain_name(wire, 0)
+                except (G.Reject, IndexError):
+                    return "accepted name %r encodes to bytes that are not a well-formed pointer-free name: %s" % (nm[:60], o[:120])
+                if end != len(wire) or len(wire) > 255 or any(len(l) > 63 for l in labels):
+                    return "accepted name %r: encoding has trailing bytes or exceeds the limits" % nm[:60]
+                if nm not in (b"", b".") and labels != T.expected_labels(nm, zl):
+                    return "accepted name %r: labels %r are not the dot-separated labels of the input (+zone)" % (nm[:60], labels[:6])
+                if T.must_reject(nm):
+                    return "name %r with an empty or over-long label was accepted" % nm[:60]
+            else:
+                if T.ldh_name_ok(nm) and G.wire_len(T.expected_labels(nm, zl)) <= 253:
+                    return "LDH name %r (wire length <= 253, labels <= 62) was rejected: %s" % (nm[:60], o)
+            return None
+        # read back
+        exp_n = nm[:-1] if nm.endswith(b".") else nm
+        raw = bytes.fromhex(case.meta["raw"])
+        exp = "W[| M=OK n=%s r=%s/%d]" % (hx(exp_n.lower()), hx(raw), len(raw))
+        if io[1] != exp:
+            return "record given the name %r reads back as %s, expected %s" % (nm[:60], io[1][:200], exp[:200])
+        if not io[2].startswith("fp[q="):
+            return "packet no longer accepted after set_raw_name: " + io[2]
+        return None
+
+    def classify(self, case, why):
+        return "names"
+
+    def nontrivial(self, case, io):
+        return hash(case.line) if case.meta["name"] else None
+
+    def tags(self, case, io):
+        return [io[0][:3]] if io else ["noout"]
+
+
+REGISTRY = {"C01": C01, "C18": C18, "C12": C12, "C03": C03, "C04": C04, "C05": C05, "C13": C13, "C14": C14}
